@@ -67,6 +67,11 @@ def main() -> int:
             j = run.job(d, want=["manifest"], plan={"fn": "models", "args": {"seed": seed(), "per_model": 14}}, cfg={"literal_enums": le})
             info[j["id"]] = {"label": "matrix:" + label, "cfg": {"literal_enums": le}, "features": {label.split(":")[1]}}
             jobs.append(j)
+    for label, d in docs.sharing_docs():
+        # components that are JSON values and multipart / form bodies / responses at once
+        j = run.job(d, want=["manifest"], plan={"fn": "models", "args": {"seed": seed(), "per_model": 14}})
+        info[j["id"]] = {"label": label, "cfg": {}, "features": {"sharing"}}
+        jobs.append(j)
     n = 220 if quick else 5000
     for i in range(n):
         d, feats = docs.random_doc(("C02", seed(), i), hostile=[0, 0, 0.3][i % 3])
